@@ -27,7 +27,7 @@ from prompt_toolkit.search import SearchDirection, SearchState
 
 ID = "C16"
 DRIVER = "drv_c16"
-PROPS = ["Ptk.Props.C16"]
+PROPS = ["Ptk.Props.C16Scan", "Ptk.Props.C16Search", "Ptk.Props.C16"]
 LEVEL_TEXT = ("Lean 4 theorems over an executable model of Document.find/find_backwards, Buffer._search (with the "
               "wrap-around loops and count iteration as written), apply_search, document_for_search, "
               "get_search_position and the incremental-search session (start / type / next / previous / accept / "
@@ -247,8 +247,22 @@ def obs_line(o) -> str:
             f"{o['sdir']} {int(o['searching'])} | {enc_str(o['shown'][0])} {o['shown'][1]}")
 
 
+_LAST = [None, None]
+
+
 def run_session(case):
-    """observations: [after init, after key 1, ...]"""
+    """observations: [after init, after key 1, ...] (the last case is cached: impl_lines and oracle
+    are evaluated one after the other on the same case in the same worker)"""
+    import json
+    key = json.dumps(case, sort_keys=True)
+    if _LAST[0] == key:
+        return _LAST[1]
+    out = _run_session(case)
+    _LAST[0], _LAST[1] = key, out
+    return out
+
+
+def _run_session(case):
     from editor import editor
     out = []
     with editor(text="", vi=bool(case["vi"]), search_ignore_case=bool(case["ic"])) as ed:
@@ -281,11 +295,32 @@ def impl_lines_keys(case):
     return [obs_line(o) for o in run_session(case)]
 
 
+def run_motion(case):
+    """Vi `n` / `N` used as a motion: `v n` (visual) or `d n` (operator) on the real editor, with the
+    SearchState of the main buffer set directly.  Returns (before, after) observations."""
+    from editor import editor
+    with editor(text="", vi=True, search_ignore_case=bool(case["ic"])) as ed:
+        s = Session(ed, True, case["lines"], case["widx"], case["cur"])
+        ss = s.ctl.search_state
+        ss.text = case["sub"]
+        ss.direction = SearchDirection.FORWARD if case["dir"] == F else SearchDirection.BACKWARD
+        o0 = s.obs()
+        k = case["count"]
+        ed.feed(case["op"])
+        ed.feed(("" if k == 1 else str(k)) + case["key"])
+        o1 = s.obs()
+    return o0, o1
+
+
 def model_lines(case):
+    if case["kind"] == "motion":
+        return []          # oracle only: selection / deletion are outside the model
     return model_lines_api(case) if case["kind"] == "api" else model_lines_keys(case)
 
 
 def impl_lines(case):
+    if case["kind"] == "motion":
+        return []
     return impl_lines_api(case) if case["kind"] == "api" else impl_lines_keys(case)
 
 
@@ -465,8 +500,50 @@ def oracle_keys(case):
     return v
 
 
+def oracle_motion(case):
+    v = []
+    o0, o1 = run_motion(case)
+    lines, w, c = o0["lines"], o0["widx"], o0["cur"]
+    sub, ic = case["sub"], case["ic"]
+    d = case["dir"] if case["key"] == "n" else (B if case["dir"] == F else F)
+    t = lines[w]
+    oc = occs(t, sub, ic)
+    tag = f"keys vi {case['op']}{case['key']}"
+
+    def bad(cond, msg):
+        v.append({"signature": f"{tag} | {cond}", "msg": f"{msg}: {case}: before={o0} after={o1}"})
+
+    if o1["widx"] != w or [x for i, x in enumerate(o1["lines"]) if i != w] != [x for i, x in enumerate(lines) if i != w]:
+        bad("left the entry", "a search motion changed the history entry / other entries")
+        return v
+    near = None
+    if sub and case["count"] == 1:
+        a = ahead(lines, w, c, sub, ic, d, 0)
+        if a and a[0][0] == w:
+            near = a[0][1]
+    if case["op"] == "v":
+        g = o1["cur"]
+        if o1["lines"][w] != t:
+            bad("text changed", "visual-mode search motion changed the text")
+        if g != c and g not in oc:
+            bad("match in another history entry", "cursor moved to a position without an occurrence")
+        if near is not None and g != near:
+            bad("nearest occurrence in this entry missed", f"nearest is {near}")
+    else:
+        t1 = o1["lines"][w]
+        cands = [g for g in oc if g != c]
+        if t1 != t and not any(t1 == t[:min(c, g)] + t[max(c, g):] for g in cands):
+            bad("match in another history entry", "deleted up to a position without an occurrence")
+        if near is not None and near != c and t1 != t[:min(c, near)] + t[max(c, near):]:
+            bad("nearest occurrence in this entry missed", f"nearest is {near}")
+    return v
+
+
 def oracle(case):
-    v = oracle_api(case) if case["kind"] == "api" else oracle_keys(case)
+    if case["kind"] == "motion":
+        v = oracle_motion(case)
+    else:
+        v = oracle_api(case) if case["kind"] == "api" else oracle_keys(case)
     seen, out = set(), []
     for x in v:
         if x["signature"] not in seen:
@@ -653,9 +730,40 @@ def random_keys(tier, rng):
         yield keys_case(vi, ic, lines, w, c, ops)
 
 
+def motion_cases(tier, rng):
+    """Vi `n`/`N` as a motion (get_search_position end to end): oracle only"""
+    hists = [["xxxxab", "ab hello"], ["ab", "xab ab"], ["b", "aab\nab"]]
+    for lines in hists:
+        for w in range(len(lines)):
+            for c in range(len(lines[w]) + 1):
+                for sub in ["ab", "a"]:
+                    for d in (F, B):
+                        for op in ("v", "d"):
+                            if op == "d" and "\n" in lines[w]:
+                                continue   # operator ranges that cross a line end follow Vi's own rules (C08)
+                            for key in ("n", "N"):
+                                yield {"kind": "motion", "ic": 0, "lines": lines, "widx": w, "cur": c, "sub": sub,
+                                       "dir": d, "op": op, "key": key, "count": 1}
+    n = 150 if tier == "quick" else 4000
+    for _ in range(n):
+        ic = rng.random() < 0.3
+        alpha = ["a", "a", "b", "A", "\n", " ", "."]
+        nl = rng.choice([1, 2, 3])
+        lines = [rand_text(rng, alpha, rng.choice([0, 3, 6, 9])) for _ in range(nl)]
+        w = rng.randrange(nl)
+        op = rng.choice(["v", "d"])
+        if op == "d":
+            lines[w] = lines[w].replace("\n", " ")
+        yield {"kind": "motion", "ic": int(ic), "lines": lines, "widx": w,
+               "cur": rng.randrange(len(lines[w]) + 1), "sub": rand_needle(rng, lines, alpha, 2).replace("\n", "a"),
+               "dir": rng.choice([F, B]), "op": op, "key": rng.choice(["n", "N"]),
+               "count": rng.choice([1, 1, 1, 2])}
+
+
 def cases(tier, rng):
     yield from exhaustive_api(tier)
     yield from scripted_keys(tier)
+    yield from motion_cases(tier, rng)
     yield from random_api(tier, rng)
     yield from random_keys(tier, rng)
 
@@ -666,6 +774,8 @@ def sample_view(case):
 
 
 def nontrivial(case):
+    if case["kind"] == "motion":
+        return any(occs(t, case["sub"], case["ic"]) for t in case["lines"])
     if case["kind"] == "api":
         return bool(case["sub"]) and any(occs(t, case["sub"], case["ic"]) for t in case["lines"])
     return any(op[0] in ("incr", "accept", "next", "prev") for op in case["ops"]) and \
@@ -679,7 +789,9 @@ def distribution(cases_):
         k = str(len(c["lines"]))
         d["entries"][k] = d["entries"].get(k, 0) + 1
         d["ignore_case"][str(c["ic"])] = d["ignore_case"].get(str(c["ic"]), 0) + 1
-        if c["kind"] == "api":
+        if c["kind"] == "motion":
+            d["ops"][c["op"] + c["key"]] = d["ops"].get(c["op"] + c["key"], 0) + 1
+        elif c["kind"] == "api":
             k = str(len(c["sub"]))
             d["needle_len"][k] = d["needle_len"].get(k, 0) + 1
             d["api_queries"] += len(api_queries(c))
